@@ -22,7 +22,7 @@ from harness.par import pmap
 
 LIMIT = 100
 FILES = {1: "a.md", 2: "b.txt", 3: "big.md", 4: "eq.md", 5: "ign.md", 6: "node_modules/x.md", 7: "sub/c.md", 8: "sub/deep/d.md",
-         9: "drafts/e.md", 13: "sub/f.txt", 14: "notes.md/raw.dat", 15: "notes.md/in.md", 17: "other/sub/c2.md", 18: "other/keep.md"}
+         9: "drafts/e.md", 13: "sub/f.txt", 14: "notes.md/raw.dat", 15: "notes.md/in.md", 17: "other/sub/c2.md", 18: "other/keep.md", 19: "other/sub/ign.md"}
 IMPL = dict(GlobFilters=True, WalkSkipsLinks=True, ForceAppliesIgnore=False)     # FALSE = behaviour of an open finding
 
 
